@@ -53,6 +53,22 @@ TRUSTED_DATA = {
     ('symbol::huffman::DecoderHuffmanTree', 'decode_symbol'):
         ('child indices stored in `nodes` are < 2*len, so node_index - num_symbols < len', 'symbol::huffman::DecoderHuffmanTree'),
 }
+TRUSTED_CALLEES = {
+    ('stream::model::categorical::contiguous::ContiguousCategoricalEntropyModel', 'quantile_function'): ('get_unchecked', 'into_nonzero_unchecked'),
+    ('stream::model::categorical::contiguous::ContiguousCategoricalEntropyModel', 'left_cumulative_and_probability'): ('into_nonzero_unchecked',),
+    ('stream::model::categorical::non_contiguous::NonContiguousCategoricalDecoderModel', 'quantile_function'): ('get_unchecked', 'into_nonzero_unchecked'),
+    ('stream::model::categorical::lookup_contiguous::ContiguousLookupDecoderModel', 'quantile_function'): ('get_unchecked', 'into_nonzero_unchecked'),
+    ('stream::model::categorical::lookup_noncontiguous::NonContiguousLookupDecoderModel', 'quantile_function'): ('get_unchecked', 'into_nonzero_unchecked'),
+    ('stream::model::quantize::LeakilyQuantizedDistribution', 'quantile_function'): ('into_nonzero_unchecked',),
+    ('stream::model::quantize::LeakilyQuantizedDistributionIter', 'next'): ('into_nonzero_unchecked',),
+    ('stream::model::uniform::UniformModel', 'new'): ('into_nonzero_unchecked',),
+    ('stream::model::uniform::UniformModel', 'left_cumulative_and_probability'): ('into_nonzero_unchecked',),
+    ('stream::model::uniform::UniformModel', 'quantile_function'): ('into_nonzero_unchecked',),
+    ('stream::model::uniform::UniformModel', 'symbol_table'): ('into_nonzero_unchecked',),
+    ('symbol::huffman::EncoderHuffmanTree', 'try_from_probabilities'): ('get_unchecked_mut',),
+    ('symbol::huffman::EncoderHuffmanTree', 'encode_symbol_suffix'): ('get_unchecked',),
+    ('symbol::huffman::DecoderHuffmanTree', 'decode_symbol'): ('get_unchecked',),
+}
 ENTRY_BOUND = {('symbol::huffman::EncoderHuffmanTree', 'encode_symbol_suffix'), ('symbol::huffman::DecoderHuffmanTree', 'decode_symbol')}
 # owners whose *contents* unchecked code relies on: their producers must be strictly validated
 STRICT_OWNERS = sorted({v[1] for v in TRUSTED_DATA.values() if v[1].startswith('stream::model::categorical')})
@@ -309,6 +325,8 @@ def check_sites(ctx, F):
             ctx.ok('R8', role, b.defpath, '%s on all %d path(s): %s' % (kind, len(hits), reasons[0]), key=key, loc=loc)
             continue
         row = TRUSTED_DATA.get(okey)
+        if row and name not in TRUSTED_CALLEES.get(okey, ()):
+            row = None      # this function's table entry does not cover this kind of unsafe operation
         if row and name in ('get_unchecked', 'get_unchecked_mut') and okey in ENTRY_BOUND:
             # the inductive step (indices read from the table) is TRUSTED-DATA; the *entry* index is machine checked
             firsts = [first_iteration_bound(F, r, i, e, True) for r, i, e in hits]
